@@ -3,6 +3,7 @@ package main
 import (
 	"fmt"
 	"go/types"
+	"path"
 	"strconv"
 	"strings"
 
@@ -114,6 +115,7 @@ func init() {
 		"strings.HasPrefix":          stringsHasPrefix,
 		"strings.Split":              stringsSplit,
 		"strings.SplitN":             stringsSplit,
+		"path.Join":                  pathJoin,
 		"sort.Slice":                 sortSlice,
 		"sort.SliceStable":           sortSlice,
 		"bytes.Compare":              bytesCompare,
@@ -126,6 +128,7 @@ func init() {
 		"context.WithTimeout":        ctxWithTimeout,
 		"context.WithDeadline":       ctxWithTimeout,
 		"context.WithValue":          ctxWithValue,
+		"context.AfterFunc":          ctxAfterFunc,
 		"time.Now":                   timeNow,
 		"time.Since":                 timeSince,
 		"time.After":                 timeAfter,
@@ -415,6 +418,20 @@ func stringsSplit(e *Exec, g *Goroutine, fn *ssa.Function, a []Value) (Value, bo
 	return SliceV{arr: Ptr{obj: e.newObj(nil, arr, "strings.Split")}, off: e.tt.Const(64, 0), ln: n, cp: n}, false
 }
 
+func pathJoin(e *Exec, g *Goroutine, fn *ssa.Function, a []Value) (Value, bool) {
+	sl := a[0].(SliceV)
+	var parts []string
+	if sl.arr.obj != nil {
+		off, n := e.sliceConcrete(sl, "path.Join")
+		get, _ := locate(sl.arr)
+		arr := get().(*ArrayV)
+		for i := 0; i < n; i++ {
+			parts = append(parts, concStr(arr.e[off+i], "path.Join"))
+		}
+	}
+	return StrV{s: path.Join(parts...)}, false
+}
+
 // sortSlice models sort.Slice / sort.SliceStable by their contract: the result is sorted with
 // respect to less; for sort.Slice elements that compare equal may end up in either order
 // (a nondeterministic choice), exactly what the documentation leaves open.
@@ -576,7 +593,43 @@ func protoMarshal(e *Exec, g *Goroutine, fn *ssa.Function, a []Value) (Value, bo
 
 // ---- context ----
 
+type afterReg struct {
+	f       FuncV
+	fired   bool
+	stopped bool
+}
+
+// ctxAfterFunc: f runs in its own goroutine once ctx is done; stop() unregisters it.
+func ctxAfterFunc(e *Exec, g *Goroutine, fn *ssa.Function, a []Value) (Value, bool) {
+	c := e.parentCtx(a[0])
+	r := &afterReg{f: a[1].(FuncV)}
+	if c.isCancelled() {
+		r.fired = true
+		e.newGoroutine(r.f, nil)
+	} else {
+		c.after = append(c.after, r)
+	}
+	stop := FuncV{native: func(e *Exec, g *Goroutine, args []Value) Value {
+		if r.fired || r.stopped {
+			return e.tt.Bool(false)
+		}
+		r.stopped = true
+		return e.tt.Bool(true)
+	}}
+	return stop, false
+}
+
+func (e *Exec) fireAfter(c *ctxObj) {
+	for _, r := range c.after {
+		if !r.fired && !r.stopped {
+			r.fired = true
+			e.newGoroutine(r.f, nil)
+		}
+	}
+}
+
 type ctxObj struct {
+	after     []*afterReg
 	id        int
 	done      *ChanObj
 	cancelled bool
@@ -649,10 +702,12 @@ func (e *Exec) cancelCtx(c *ctxObj) {
 	if c.done != nil {
 		c.done.closed = true
 	}
+	e.fireAfter(c)
 	for _, d := range e.ctxs { // propagate to descendants
 		if !d.cancelled && d.isCancelled() && d.done != nil {
 			d.cancelled = true
 			d.done.closed = true
+			e.fireAfter(d)
 		}
 	}
 }
